@@ -35,7 +35,11 @@ def run(ctx):
     import fam_rewrite as frw
     vecs = frw.text_vectors(ctx, "corpus/nearmiss/vectors.json", "C06") + frw.text_vectors(ctx, "corpus/inter/vectors.json", "C06")
     vecs = [v for v in vecs if not v.get("header")]
-    rich = frw.on_files(vecs if not quick else frw.sample(ctx, vecs, 60),
+    # (quick: a seeded sample, but always the patterns that begin with a metavariable - those bind
+    #  before anything can be rejected, on every node of the file)
+    early = [v for v in vecs if "meta" in v["id"]]
+    rest = [v for v in vecs if "meta" not in v["id"]]
+    rich = frw.on_files(vecs if not quick else early + frw.sample(ctx, rest, 40),
                         ["corpus/rich/r1.go", "corpus/rich/r2.go", "corpus/inter/inter.go", "corpus/nearmiss/nm_stmt.go"], "no-match identity")
     nst = frw.nomatch_identity(ctx, frw.replay_and_judge(ctx, "nomatch", rich, None, shards=16))
     if nst["unmatched"] == 0:
